@@ -282,7 +282,11 @@ func (rb *replayBuilder) goExpr(v Value, typ types.Type) string {
 		p := x
 		if p.Obj == nil && p.Lazy != nil {
 			if p.Lazy.obj == nil {
-				return "nil" // never dereferenced on any path
+				// never dereferenced on any path, but the model says it is not nil: any fresh zero object will do
+				if pt, ok := typ.Underlying().(*types.Pointer); ok {
+					return "new(" + types.TypeString(pt.Elem(), qual(rb.fx.eng.tpkg)) + ")"
+				}
+				return "nil"
 			}
 			p = rb.fx.materialise(x)
 		}
